@@ -411,10 +411,18 @@ fn queue_case<W: BitArray>(bits: &[bool], bad: &mut Bad, counters: &mut [u64; 4]
         bad.push((format!("QueueDecoder::read_bit | {wn} | not fused after the end"), format!("bits {:?}", bits)));
     }
     // a decoder constructed directly over the words
-    let mut d2 = QueueDecoder::<W, _>::from_compressed(constriction::backends::Cursor::new_at_write_beginning(words));
+    let mut d2 = QueueDecoder::<W, _>::from_compressed(constriction::backends::Cursor::new_at_write_beginning(words.clone()));
     for (k, &b) in bits.iter().enumerate() {
         if d2.read_bit().unwrap_infallible() != Some(b) {
             bad.push((format!("QueueDecoder::read_bit | {wn} | bits come back in a different order than written"), format!("bits {:?}: bit #{k} (decoder over words)", bits)));
+            break;
+        }
+    }
+    // ... and over an iterator-backed source, which keeps the trait's default `maybe_exhausted()` ("maybe": always true)
+    let mut d3 = QueueDecoder::<W, _>::from_compressed(constriction::backends::FallibleIteratorReadWords::new(words.iter().map(|&w| Ok::<W, core::convert::Infallible>(w))));
+    for (k, &b) in bits.iter().enumerate() {
+        if d3.read_bit().ok().flatten() != Some(b) {
+            bad.push((format!("QueueDecoder::read_bit | {wn} | over an iterator-backed source bits do not come back as written"), format!("bits {:?}: bit #{k}", bits)));
             break;
         }
     }
